@@ -279,6 +279,31 @@ pub fn arith(m: &mut M, r: &mut Rng, n: u64, which: &str) {
             let z = r.f64_in(-1022, 1023);
             m.call("arith", "from_f64", *r.pick(&["From", "from_f64", "Into", "NumCast"]), Some(2), &[A::F(z)]);
         }
+        if (all || which == "mul" || which == "div") && i % 3 == 0 {
+            // a "special" high word (1, a power of two, a small integer, 1/2) with a NON-ZERO low word, on either
+            // side, through every spelling: shortcuts for unit / power-of-two factors must look at both words
+            let hs = match r.below(4) {
+                0 => 1.0,
+                1 => pow2(r.range(-40, 40) as i32),
+                2 => r.range(2, 10) as f64,
+                _ => 0.5,
+            } * if r.coin() { 1.0 } else { -1.0 };
+            let ls = if r.coin() { generic_lo(r, hs) } else { lo_candidate(r, hs) };
+            let ls = if ls == 0.0 { pow2(exponent(hs) - 60) } else { ls };
+            if m.load(6, hs, ls) {
+                load_generic(m, r, 7, -20, 20);
+                for spn in SP_TT {
+                    if all || which == "mul" {
+                        m.call("arith", "mul", spn, Some(2), &[A::R(6), A::R(7)]);
+                        m.call("arith", "mul", spn, Some(2), &[A::R(7), A::R(6)]);
+                    }
+                    if all || which == "div" {
+                        m.call("arith", "div", spn, Some(2), &[A::R(7), A::R(6)]);
+                        m.call("arith", "div", spn, Some(2), &[A::R(6), A::R(7)]);
+                    }
+                }
+            }
+        }
         if all || which == "add" {
             if i % 2 == 0 {
                 // ulp-level cancellation of the high words with two independent full-width low words, through
@@ -429,7 +454,7 @@ fn mul_worst_group(m: &mut M, r: &mut Rng) {
 fn rem_group(m: &mut M, r: &mut Rng) {
     let e = r.range(-380, 300) as i32;
     load_valid(m, r, 1, e, e + 1);
-    let scen = r.below(8);
+    let scen = r.below(10);
     let qe = match r.below(4) {
         0 => r.range(-3, 3),
         1 => r.range(3, 52),
@@ -451,6 +476,24 @@ fn rem_group(m: &mut M, r: &mut Rng) {
             // small integers
             let a = r.range(-200, 200) as f64;
             let b = r.range(1, 50) as f64 * if r.coin() { 1.0 } else { -1.0 };
+            m.load(0, a, 0.0);
+            m.load(1, b, 0.0);
+        }
+        8 | 9 => {
+            // both operands are single f64 words (low words zero) and the quotient is within an ulp (of f64!) of an
+            // integer, from either side, or far beyond 2^53: a one-word shortcut that divides in f64 rounds it
+            let b = match r.below(3) {
+                0 => *r.pick(&[0.1, 0.3, 0.7, 0.01, 1e-3, 0.6, 1.1, 3.3]),
+                1 => r.f64_uniform_mant(-20, 20).abs(),
+                _ => r.range(1, 1000) as f64,
+            } * if r.coin() { 1.0 } else { -1.0 };
+            let k = match r.below(3) {
+                0 => r.range(1, 1000) as f64,
+                1 => (r.next() >> r.range(11, 50)) as f64,
+                _ => (r.next() >> 11) as f64 * pow2(r.range(1, 36) as i32),
+            } * if r.coin() { 1.0 } else { -1.0 };
+            let a0 = k * b;
+            let a = match r.below(4) { 0 => next_up_mag(a0), 1 => next_down_mag(a0), _ => a0 };
             m.load(0, a, 0.0);
             m.load(1, b, 0.0);
         }
